@@ -281,6 +281,7 @@ const (
 	scCancelAndLost
 	scHandlerAndCancel // the handler rejects the first transaction while the caller cancels
 	scHandlerAndLost   // the handler rejects the first transaction and the master drops the connection after its last packet
+	scHandlerAndEOF    // the handler rejects the first transaction while the master's EOF for the whole dump arrives
 	scKinds
 )
 
@@ -320,6 +321,8 @@ func VH_C05_Stream(cause, npk, ahead, hmode int) {
 		for i := range sc.errMsg {
 			vhAssume(sc.errMsg[i] >= 0x20 && sc.errMsg[i] < 0x7f) // printable message text
 		}
+	case scHandlerAndEOF:
+		sc.end = endEOF
 	case scHandlerAndLost:
 		sc.end = endLost
 		sc.pipe = true // natively: a write to the departed master fails at once, so Close() reports an error
@@ -363,7 +366,7 @@ func VH_C05_Stream(cause, npk, ahead, hmode int) {
 		vhEnvDone(evHandlerExit + delivered)
 		delivered++
 		inHandler = false
-		if (cause == scHandler || cause == scHandlerAndCancel || cause == scHandlerAndLost) && delivered == 1 {
+		if (cause == scHandler || cause == scHandlerAndCancel || cause == scHandlerAndLost || cause == scHandlerAndEOF) && delivered == 1 {
 			return errHandler
 		}
 		return nil
@@ -389,7 +392,7 @@ func VH_C05_Stream(cause, npk, ahead, hmode int) {
 
 	// ---- C06: the reason the stream ended is reported ----
 	switch cause {
-	case scHandler, scHandlerAndCancel, scHandlerAndLost:
+	case scHandler, scHandlerAndCancel, scHandlerAndLost, scHandlerAndEOF:
 		if delivered >= 1 {
 			vhAssert(err != nil, "a handler failure makes Stream return an error")
 		}
@@ -517,16 +520,26 @@ func VH_C07_Attempts(attempts, ahead int) {
 		last := a == attempts
 		fault := -1
 		rejectAt := -1
+		cancelAt := -1
 		if !last {
 			// 0 handler rejects delivery number rejectAt of this attempt (earlier ones are accepted),
-			// 1 master ERR, 2 connection lost, 3 the dump request itself fails
-			fault = vhChoose(4)
+			// 1 master ERR, 2 connection lost, 3 the dump request itself fails,
+			// 4 the caller cancels while the handler stores delivery number cancelAt (which it accepts)
+			fault = vhChoose(5)
 			if fault == 0 {
 				rejectAt = vhChoose(3)
 			}
+			if fault == 4 {
+				cancelAt = vhChoose(2)
+			}
 		}
 		sc.failNotice = fault == 3
-		switch fault {
+		endKind := fault
+		if last {
+			// the final attempt delivers whatever is left and may itself end in any way
+			endKind = vhChoose(3) // 0 EOF, 1 master ERR, 2 connection lost
+		}
+		switch endKind {
 		case 1:
 			sc.end, sc.errCode, sc.errMsg = endERR, 1236, []byte("x")
 		case 2:
@@ -534,28 +547,44 @@ func VH_C07_Attempts(attempts, ahead int) {
 		default:
 			sc.end = endEOF
 		}
+		ctx := newVCtx()
 		ndeliv := 0
 		before := len(requested)
 		ghostBefore := ghost
-		err := s.Stream(newVCtx(), func(t *Transaction) error {
+		sawNewFile := false
+		err := s.Stream(ctx, func(t *Transaction) error {
+			if t.NextPosition.Filename == newFile {
+				sawNewFile = true // the ROTATE in front of this transaction has been consumed
+			}
 			if ndeliv == rejectAt {
 				ndeliv++
 				return errHandler
+			}
+			if ndeliv == cancelAt {
+				ctx.cancel()
 			}
 			ndeliv++
 			vhAssert(t.NextPosition.Filename == log[len(accepted)].file && t.NextPosition.Offset == int64(log[len(accepted)].end), "transactions arrive in log order with their end labels")
 			accepted = append(accepted, t.NextPosition.Offset)
 			ghost = t.NextPosition
-			if len(accepted) == 2 {
-				// the rotation that follows the second transaction moves the boundary into the new file
-				ghost = Position{Filename: newFile, Offset: 4}
-			}
+			// the transaction belongs to the handler now: what it does with it must not reach the streamer
+			t.NextPosition = Position{Filename: "scribbled", Offset: 1}
+			t.NowPosition = Position{Filename: "scribbled", Offset: 2}
 			return nil
 		})
 		if last {
-			vhAssert(err == nil, "the final attempt streams to the master's EOF without an error")
+			vhAssert(err == nil, "the final attempt streams to the end of the dump without an error")
 		}
-		s.Error()
+		e1 := s.Error()
+		// the reason each attempt ended is reported for THAT attempt, whatever ended the earlier ones
+		switch {
+		case ctx.Err() != nil:
+			vhAssert(e1 == nil, "a stream the caller cancelled is a clean end")
+		case (last && endKind == 0):
+			vhAssert(err == nil && e1 == nil, "the master's EOF is a clean end")
+		case (last && endKind != 0) || fault == 1 || fault == 2:
+			vhAssert(err == nil && e1 != nil, "a master error / a lost connection is never reported as a clean end")
+		}
 		vhQuiesce()
 		// every attempt announces checksum awareness on ITS connection before it requests the dump
 		calls := env.calls()
@@ -578,9 +607,17 @@ func VH_C07_Attempts(attempts, ahead int) {
 			vhAssert(int64(requested[before]) == ghostBefore.Offset, "the dump request carries the offset of the stored resume position")
 			vhAssert(files[before] == ghostBefore.Filename, "the dump request names the file of the stored resume position")
 		}
-		// (in this log nothing can end an attempt between the second transaction and the ROTATE that
-		// follows it, so a boundary after two accepted transactions is always the rotation target)
 		kept := s.binlogPosition()
+		if len(accepted) == 2 {
+			// the boundary after the second transaction moves into the new file once the ROTATE behind it
+			// has been consumed: certainly when the handler has seen the new file's transaction or the
+			// stream ran to its end, possibly when the caller cancelled right after the second transaction
+			moved := Position{Filename: newFile, Offset: 4}
+			consumed := sawNewFile || fault == 1 || fault == 2
+			if consumed || (ctx.Err() != nil && kept.Filename == newFile) {
+				ghost = moved
+			}
+		}
 		vhAssert(kept.Filename == ghost.Filename && kept.Offset == ghost.Offset, "the stored position is the boundary after the last accepted transaction (moved by a consumed rotation)")
 	}
 	vhAssert(requested[0] == 100 && files[0] == oldFile, "first attempt starts at the configured position")
